@@ -129,24 +129,6 @@ pub fn data_len_borrowed() {
     std::mem::forget(r);
 }
 
-/// A slice *descriptor* of any length up to isize::MAX (never dereferenced: try_new only looks
-/// at the length): accepted iff <= 255.  Covers truncation to 32 bits and beyond.
-pub fn data_len_any_usize() {
-    let n: usize = kani::any();
-    kani::assume(n <= isize::MAX as usize);
-    let p = ZEROS.as_ptr();
-    let s: &'static [u8] = unsafe { std::slice::from_raw_parts(p, n) };
-    let r = Data::try_new(s);
-    match &r {
-        Ok(_) => assert!(n <= 255, "C01: a data block longer than 255 bytes was accepted"),
-        Err(FrameError::DataTooLong { max, actual }) => assert!(n > 255 && *max == 255 && *actual == n, "C01: data block rejected wrongly or with wrong numbers"),
-        Err(_) => assert!(false, "C01: wrong error kind"),
-    }
-    kani::cover!(n == (1usize << 32) && r.is_err(), "2^32 rejected");
-    kani::cover!(n == (1usize << 32) + 5 && r.is_err(), "2^32+5 rejected");
-    std::mem::forget(r);
-}
-
 /// Owned blocks of concrete length L.
 pub fn data_len_owned<const L: usize>() {
     let v = vec![0u8; L];
@@ -157,46 +139,181 @@ pub fn data_len_owned<const L: usize>() {
 }
 
 // ---------------------------------------------------------------------------------- Lemma P
-/// Real decoder vs reference decoder on every well-shaped text with N data pairs (hex digits of
-/// both cases symbolic everywhere, so declared length and checksum are arbitrary).
-pub fn lemma_p<const N: usize, const LEN: usize>(crlf: bool) {
-    let end = 11 + 2 * N;
-    assert!(LEN == end + if crlf { 2 } else { 0 });
+// Real decoder vs reference decoder on every well-shaped text with N data pairs (hex digits of
+// both cases symbolic everywhere, so declared length and checksum are arbitrary).  Split into
+// five facets because one harness checking everything costs 6M SAT variables even for N = 0.
+
+fn p_input<const LEN: usize>(end: usize) -> [u8; LEN] {
     let b: [u8; LEN] = kani::any();
     kani::assume(ref_shape_end(&b) == Some(end));
     set_mode(Mode::Contract(end));
-    let want = ref_decode(&b);
+    b
+}
+
+fn class_of(r: &Result<Frame<'_>, FrameError>) -> u8 {
+    match r {
+        Ok(_) => 0,
+        Err(FrameError::FrameDataMismatch { .. }) => 1,
+        Err(FrameError::BadChecksum { .. }) => 2,
+        Err(_) => 3,
+    }
+}
+
+/// P1: accept / length mismatch / bad checksum, in that order of precedence.
+pub fn p_outcome<const N: usize, const LEN: usize>(crlf: bool) {
+    let end = 11 + 2 * N;
+    assert!(LEN == end + if crlf { 2 } else { 0 });
+    let b = p_input::<LEN>(end);
+    let want = match ref_decode(&b) {
+        RefDecode::Ok { .. } => 0,
+        RefDecode::LenMismatch { .. } => 1,
+        RefDecode::BadChecksum { .. } => 2,
+        RefDecode::Malformed => 3,
+    };
     let got = Frame::from_bytes(&b);
-    match (&got, want) {
-        (Ok(f), RefDecode::Ok { addr, ty, n }) => {
-            assert!(f.address() == Address(addr) && f.message_type() == MsgType(ty) && f.data().len() == n, "C03: decoded header differs from the independent parser");
+    assert!(class_of(&got) == want, "C02/C03: decoder outcome (accept / length mismatch / bad checksum) differs from the independent parser");
+    kani::cover!(want == 0, "accepted");
+    kani::cover!(want == 1, "length mismatch");
+    kani::cover!(want == 2, "bad checksum");
+    std::mem::forget(got);
+}
+
+/// P2: an accepted text decodes to the fields the independent parser reads.
+pub fn p_ok_fields<const N: usize, const LEN: usize>(crlf: bool) {
+    let end = 11 + 2 * N;
+    assert!(LEN == end + if crlf { 2 } else { 0 });
+    let b = p_input::<LEN>(end);
+    let (addr, ty) = match ref_decode(&b) {
+        RefDecode::Ok { addr, ty, .. } => (addr, ty),
+        _ => {
+            kani::assume(false);
+            (0, 0)
+        }
+    };
+    let got = Frame::from_bytes(&b);
+    match &got {
+        Ok(f) => {
+            assert!(f.address() == Address(addr) && f.message_type() == MsgType(ty) && f.data().len() == N, "C03: decoded header differs from the independent parser");
             let mut i = 0;
             while i < N {
                 assert!(f.data()[i] == ref_pair(&b, 9 + 2 * i), "C03: decoded data differs from the independent parser");
                 i += 1;
             }
-            // re-encoding reproduces the text up to digit case and the terminator
-            let again = f.to_bytes();
-            assert!(again.len() == end, "C03: re-encoding has another length");
+        }
+        Err(_) => assert!(false, "C03: a text with the right shape, length and checksum is rejected"),
+    }
+    kani::cover!(addr > 0xFF, "address with high byte");
+    std::mem::forget(got);
+}
+
+/// E (reference pair only): for every accepted text, encoding the decoded fields reproduces the
+/// text up to digit case and the terminator.  With P2 (real decoder == reference on accepted
+/// texts) and enc (real encoder == reference encoder) this gives the re-encoding clause for the
+/// real code without running decoder and encoder in one solver query (which costs 10+ GB).
+pub fn lemma_e<const N: usize, const LEN: usize, const TL: usize>(crlf: bool) {
+    let end = 11 + 2 * N;
+    assert!(TL == end && LEN == end + if crlf { 2 } else { 0 });
+    let b: [u8; LEN] = kani::any();
+    kani::assume(ref_shape_end(&b) == Some(end));
+    let (addr, ty) = match ref_decode(&b) {
+        RefDecode::Ok { addr, ty, .. } => (addr, ty),
+        _ => {
+            kani::assume(false);
+            (0, 0)
+        }
+    };
+    let mut d = [0u8; N];
+    let mut i = 0;
+    while i < N {
+        d[i] = ref_pair(&b, 9 + 2 * i);
+        i += 1;
+    }
+    let mut again = [0u8; TL];
+    ref_encode(addr, ty, &d, &mut again);
+    let mut i = 0;
+    while i < TL {
+        assert!(again[i] == to_upper_hex(b[i]), "E: reference encode(decode(text)) differs from the text");
+        i += 1;
+    }
+    kani::cover!(b[3] != again[3], "input had a lower-case digit");
+}
+
+/// D (reference pair only): the reference encoding of any frame has the documented shape and the
+/// reference decoder returns the frame.  With enc and P2 this gives the round trip of the real code.
+pub fn lemma_d<const N: usize, const TL: usize, const CAP: usize>(crlf: bool) {
+    assert!(TL == 11 + 2 * N && CAP == TL + 2);
+    let d: [u8; N] = kani::any();
+    let addr: u16 = kani::any();
+    let ty: u8 = kani::any();
+    let mut e = [0u8; CAP];
+    ref_encode(addr, ty, &d, &mut e[..TL]);
+    e[TL] = b'\r';
+    e[TL + 1] = b'\n';
+    let text = if crlf { &e[..CAP] } else { &e[..TL] };
+    assert!(ref_shape_end(text) == Some(TL), "D: reference encoding does not have the documented shape");
+    match ref_decode(text) {
+        RefDecode::Ok { addr: a, ty: t, n } => {
+            assert!(a == addr && t == ty && n == N, "D: reference decode(encode(f)) has another header");
             let mut i = 0;
-            while i < end {
-                assert!(again[i] == to_upper_hex(b[i]), "C03: re-encoding an accepted string does not reproduce it");
+            while i < N {
+                assert!(ref_pair(text, 9 + 2 * i) == d[i], "D: reference decode(encode(f)) has other data");
                 i += 1;
             }
         }
-        (Err(FrameError::FrameDataMismatch { data, expected, actual }), RefDecode::LenMismatch { declared, actual: a }) => {
-            assert!(*expected == declared && *actual == a, "C03: length-mismatch error does not report declared and actual counts");
-            assert!(bytes_eq(data, &b), "C03: error does not carry the input");
-        }
-        (Err(FrameError::BadChecksum { data, expected, actual }), RefDecode::BadChecksum { declared, computed }) => {
-            assert!(*expected == declared && *actual == computed, "C03: checksum error does not report declared and computed values");
-            assert!(bytes_eq(data, &b), "C03: error does not carry the input");
-        }
-        _ => assert!(false, "C02/C03: decoder outcome (accept / length mismatch / bad checksum) differs from the independent parser"),
+        _ => assert!(false, "D: reference decoder rejects the reference encoding"),
     }
-    kani::cover!(matches!(want, RefDecode::Ok { .. }), "accepted");
+    // all encoded bytes (length, address, type, data, checksum) sum to 0 mod 256
+    let mut sum: u8 = 0;
+    let mut i = 1;
+    while i < TL {
+        sum = sum.wrapping_add(ref_pair(text, i));
+        i += 2;
+    }
+    assert!(sum == 0, "D: encoded bytes do not sum to 0 mod 256");
+    kani::cover!(addr > 0xFF, "address with high byte");
+}
+
+/// P4: the numbers reported by the two rejection kinds.
+pub fn p_err_fields<const N: usize, const LEN: usize>(crlf: bool) {
+    let end = 11 + 2 * N;
+    assert!(LEN == end + if crlf { 2 } else { 0 });
+    let b = p_input::<LEN>(end);
+    let want = ref_decode(&b);
+    kani::assume(!matches!(want, RefDecode::Ok { .. }));
+    let got = Frame::from_bytes(&b);
+    match (&got, want) {
+        (Err(FrameError::FrameDataMismatch { expected, actual, .. }), RefDecode::LenMismatch { declared, actual: a }) => {
+            assert!(*expected == declared && *actual == a, "C03: length-mismatch error does not report declared and actual counts");
+        }
+        (Err(FrameError::BadChecksum { expected, actual, .. }), RefDecode::BadChecksum { declared, computed }) => {
+            assert!(*expected == declared && *actual == computed, "C03: checksum error does not report declared and computed values");
+        }
+        _ => assert!(false, "C03: rejection kind differs from the independent parser"),
+    }
     kani::cover!(matches!(want, RefDecode::LenMismatch { .. }), "length mismatch");
     kani::cover!(matches!(want, RefDecode::BadChecksum { .. }), "bad checksum");
+    std::mem::forget(got);
+}
+
+/// P5: every rejection carries the offending text.
+pub fn p_err_data<const N: usize, const LEN: usize>(crlf: bool) {
+    let end = 11 + 2 * N;
+    assert!(LEN == end + if crlf { 2 } else { 0 });
+    let b = p_input::<LEN>(end);
+    kani::assume(!matches!(ref_decode(&b), RefDecode::Ok { .. }));
+    let got = Frame::from_bytes(&b);
+    match &got {
+        Err(FrameError::FrameDataMismatch { data, .. }) | Err(FrameError::BadChecksum { data, .. }) => {
+            assert!(data.len() == LEN, "C03: error does not carry the input");
+            let mut i = 0;
+            while i < LEN {
+                assert!(data[i] == b[i], "C03: error does not carry the input");
+                i += 1;
+            }
+        }
+        _ => assert!(false, "C03: rejection kind differs from the independent parser"),
+    }
+    kani::cover!(got.is_err(), "rejected");
     std::mem::forget(got);
 }
 
